@@ -176,13 +176,16 @@ Proof. exact group_all_enabled. Qed.
 Print Assumptions C06_group_means_all_tls.
 
 (* ---- client-certificate sites: SNI and Host must agree ----
-   For every site set, SNI and Host header: a request that reaches a site demanding client
-   certificates (policy set, strict matching not disabled) over TLS is served only if the SNI
-   equals (case-insensitively) the host name of the Host header as the vhost router normalises
-   it — the very name the site was selected by; it is refused (403) only for such a mismatch. *)
+   For every site set, default server name, local address, SNI and Host header: a request that
+   reaches a site demanding client certificates (policy set, strict matching not disabled) over
+   TLS is served only if the SNI equals (case-insensitively) the host name of the Host header as
+   the vhost router normalises it — the very name the site was selected by — and, when the
+   handshake carried no SNI at all, only if no default server name is set and no site is named
+   by the local address of the connection (otherwise such a handshake is governed by that site,
+   not by the catch-all one).  It is refused (403) only for these reasons. *)
 Theorem C06_clientauth_requires_matching_sni :
-  forall sites sni rhost i s,
-  serve sites (Some sni) rhost = Served i -> nth_error sites i = Some s -> demands (s_tls s) = true ->
+  forall sites dflt conn sni rhost i s,
+  serve sites dflt conn (Some sni) rhost = Served i -> nth_error sites i = Some s -> demands (s_tls s) = true ->
   to_lower sni = route_host rhost.
 Proof. exact strict_sni_host. Qed.
 Print Assumptions C06_clientauth_requires_matching_sni.
@@ -190,17 +193,36 @@ Print Assumptions C06_clientauth_requires_matching_sni.
 Example C06_clientauth_requires_matching_sni_nonvacuous :
   let sites := [mkS (bs "a.com:443"%string) (mkT (bs "a.com"%string) true TLS12 TLS13 [] [] [] true 2 [] false);
                 mkS (bs "b.com:443"%string) (mkT (bs "b.com"%string) true TLS12 TLS13 [] [] [] true 0 [] false)] in
-  serve sites (Some (bs "A.com"%string)) (bs "a.com:443"%string) = Served 0 /\
-  serve sites (Some (bs "b.com"%string)) (bs "a.com:443"%string) = Forbidden 0 /\
+  serve sites [] None (Some (bs "A.com"%string)) (bs "a.com:443"%string) = Served 0 /\
+  serve sites [] None (Some (bs "b.com"%string)) (bs "a.com:443"%string) = Forbidden 0 /\
   (* a second port inside brackets is stripped by the router: the SNI must name what remains *)
-  serve sites (Some (bs "a.com:80"%string)) (bs "[a.com:80]:90"%string) = Forbidden 0.
+  serve sites [] None (Some (bs "a.com:80"%string)) (bs "[a.com:80]:90"%string) = Forbidden 0.
+Proof. vm_compute. repeat split; reflexivity. Qed.
+
+Theorem C06_clientauth_without_sni_only_under_catch_all :
+  forall sites dflt conn rhost i s,
+  serve sites dflt conn (Some []) rhost = Served i -> nth_error sites i = Some s -> demands (s_tls s) = true ->
+  trim_space dflt = [] /\
+  forall a s', conn = Some a -> In s' sites -> host (s_tls s') <> host_only a.
+Proof. exact sniless_served. Qed.
+Print Assumptions C06_clientauth_without_sni_only_under_catch_all.
+
+Example C06_clientauth_without_sni_nonvacuous :
+  let sites := [open_site "127.0.0.1:443"%string "127.0.0.1"%string; mtls_site ":443"%string ""%string] in
+  (* reached through another address, the catch-all governs the handshake and the site answers *)
+  serve sites [] (Some (bs "10.0.0.1:443"%string)) (Some []) [] = Served 1 /\
+  (* on 127.0.0.1 the handshake belongs to the open site: refused *)
+  serve sites [] (Some (bs "127.0.0.1:443"%string)) (Some []) [] = Forbidden 1 /\
+  (* with a default server name the handshake belongs to the site of that name: refused *)
+  serve sites (bs "b.com"%string) (Some (bs "10.0.0.1:443"%string)) (Some []) [] = Forbidden 1.
 Proof. vm_compute. repeat split; reflexivity. Qed.
 
 Theorem C06_forbidden_only_on_mismatch :
-  forall sites tls rhost i,
-  serve sites tls rhost = Forbidden i ->
+  forall sites dflt conn tls rhost i,
+  serve sites dflt conn tls rhost = Forbidden i ->
   exists sni s, tls = Some sni /\ nth_error sites i = Some s /\ demands (s_tls s) = true /\
-                to_lower sni <> route_host rhost.
+                (to_lower sni <> route_host rhost \/
+                 (sni = [] /\ sniless_elsewhere sites dflt conn = true)).
 Proof. exact forbidden_only_on_mismatch. Qed.
 Print Assumptions C06_forbidden_only_on_mismatch.
 
@@ -209,16 +231,17 @@ Print Assumptions C06_forbidden_only_on_mismatch.
    client certificates was governed by settings equal to that site's own (hence the same
    client-certificate policy).  It holds for every site set (each site keyed in the router by the
    host name of its TLS config; 0.0.0.0 / :: / "" spellings included) in which no site is named
-   by a wildcard candidate of the router's fallback hosts ("*", "*.*.*.*", ...), every non-empty
-   SNI without surrounding white space and EVERY Host header (the strict test looks at the name
-   the router selected the site by). *)
+   by a wildcard candidate of the router's fallback hosts ("*", "*.*.*.*", ...), every SNI
+   without surrounding white space — the empty one included —, every default server name and
+   local address, and EVERY Host header (the strict test looks at the name the router selected
+   the site by). *)
 Theorem C06_clientauth_policy_governs_partial :
   forall dc bad sites g dflt conn sni rhost v s,
   make_tls_config dc bad (map (fun s => Some (s_tls s)) sites) = MkGroup g ->
   (forall s, In s sites -> vhost_key (s_addr s) = host (s_tls s)) ->
   (forall c, In c fallback_star_names -> mget c (vhosts sites) = None) ->
-  serve sites (Some sni) rhost = Served v -> nth_error sites v = Some s -> demands (s_tls s) = true ->
-  trim_space sni = sni -> sni <> [] ->
+  serve sites dflt conn (Some sni) rhost = Served v -> nth_error sites v = Some s -> demands (s_tls s) = true ->
+  trim_space sni = sni ->
   exists k i c ob, get_config g dflt conn sni = Found k (i, c, ob) /\ build dc bad (s_tls s) = Some ob.
 Proof. exact clientauth_policy_governs. Qed.
 Print Assumptions C06_clientauth_policy_governs_partial.
@@ -229,7 +252,7 @@ Example C06_clientauth_policy_governs_nonvacuous :
   (exists g, make_tls_config (default_ciphers true) [] (map (fun s => Some (s_tls s)) sites) = MkGroup g) /\
   (forall s, In s sites -> vhost_key (s_addr s) = host (s_tls s)) /\
   (forall c, In c fallback_star_names -> mget c (vhosts sites) = None) /\
-  serve sites (Some (bs "X.a.com"%string)) (bs "x.A.com:443"%string) = Served 0.
+  serve sites [] None (Some (bs "X.a.com"%string)) (bs "x.A.com:443"%string) = Served 0.
 Proof.
   split; [eexists; vm_compute; reflexivity|].
   split; [intros s [<-|[<-|[<-|[]]]]; vm_compute; reflexivity|].
@@ -245,7 +268,7 @@ Example C06_clientauth_policy_governs_nonvacuous_unspecified :
                 open_site "b.com:443"%string "b.com"%string] in
   (forall s, In s sites -> vhost_key (s_addr s) = host (s_tls s)) /\
   (forall c, In c fallback_star_names -> mget c (vhosts sites) = None) /\
-  serve sites (Some (bs "z.org"%string)) (bs "z.org"%string) = Served 0 /\
+  serve sites [] None (Some (bs "z.org"%string)) (bs "z.org"%string) = Served 0 /\
   exists g i c b, make_tls_config (default_ciphers true) [] (map (fun s => Some (s_tls s)) sites) = MkGroup g /\
                   get_config g [] None (bs "z.org"%string) = Found [] (i, c, Some b) /\ b_cauth b = 2.
 Proof.
@@ -256,21 +279,9 @@ Proof.
   do 4 eexists. split; [vm_compute; reflexivity|]. split; vm_compute; reflexivity.
 Qed.
 
-(* Without those side conditions the stronger reading — the handshake of a request served by a client-certificate site was
-   governed by that site's own policy — is false of the code.  Witnesses (each replayed on the
-   real server, corpus/C06): empty SNI + empty Host with a local-IP site; a site named "*". *)
-
-
-Theorem C06_clientauth_policy_governs_refuted_empty_names :
-  served_under_foreign_policy [open_site "127.0.0.1:443"%string "127.0.0.1"%string; mtls_site ":443"%string ""%string]
-                              [] (Some (bs "127.0.0.1:443"%string)) [] [].
-Proof.
-  unfold served_under_foreign_policy. do 7 eexists.
-  split; [vm_compute; reflexivity|]. split; [vm_compute; reflexivity|]. split; [vm_compute; reflexivity|].
-  split; [vm_compute; reflexivity|]. split; [vm_compute; reflexivity|]. vm_compute. discriminate.
-Qed.
-Print Assumptions C06_clientauth_policy_governs_refuted_empty_names.
-
+(* Without the condition on wildcard names the stronger reading — the handshake of a request
+   served by a client-certificate site was governed by that site's own policy — is false of the
+   code.  Witness (replayed on the real server, corpus/C06): a site named "*". *)
 Theorem C06_clientauth_policy_governs_refuted_all_wildcard_site :
   served_under_foreign_policy [mtls_site "*:443"%string "*"%string; open_site ":443"%string ""%string]
                               [] None (bs "z.org"%string) (bs "z.org"%string).
